@@ -81,7 +81,11 @@ def space(ctx):
                                  "entry_points": ["DvClass.get_source()", "DvClass.get_source_ext() / DvMethod.get_source_ext() tokens",
                                                   "DvClass.get_ast() (process(doAST=True))"],
                                  "decoy_history": "same class/field/method names with the types rotated, decompiled first",
-                                 "interface_order": "both orders (alternating with the class index)"}}
+                                 "interface_order": "both orders (alternating with the class index)"},
+            "parameter_lists": {"class_names": {k: [ascii(x) for x in v] for k, v in HOSTILE.items()}, "array_depth": [0, 1],
+                                "length": [1, 3], "position_of_the_name": "first / middle / last", "other_members": FILLERS,
+                                "read_through": ["util.get_params_type (blank separated descriptor)", "get_source() prototype",
+                                                 "get_source_ext() ARG_TYPE", "get_ast() params", "arguments of an invoke"]}}
 
 
 # ---------------------------------------------------------------------------------- reference model
@@ -481,6 +485,166 @@ def judge_source(types):
     return pos, out, subsumed
 
 
+# ---------------------------------------------------------------------------------- parameter lists
+# Class names with the DEX SimpleNameChar characters that are not "word" characters ('-', currency and other symbols,
+# a supplementary symbol), placed first / middle / last in parameter lists of 1..3 parameters whose other members are
+# primitives whose letter also occurs inside the hostile name, or a plain class.  Read through util.get_params_type
+# (blank separated descriptor, the form androguard builds), the prototype in get_source(), the ARG_TYPE tokens of
+# get_source_ext(), the params of get_ast(), and the argument list of an invoke that passes the parameters on.
+HOSTILE = {"hyphen": ["Lcom/acme/Data-Set;", "Lb-D;", "Lpackage-info;"],
+           "symbol-bmp": ["Lcom/acme/Prix\u20ac;", "La/\u00a2J;", "L\u20acI/Z\u00a2S;"],
+           "symbol-nonbmp": ["Lcom/acme/S\U0001f600Z;"],
+           "word": ["Lcom/acme/Plain;", "Lcom/acme/D_I$1;", "Lcom/acme/\u00c9t\u00e9J;"]}
+FILLERS = ["I", "J", "D", "Ljava/lang/String;"]
+N_PAR = 16
+
+
+def hostile_class(t):
+    e = split_desc(t)[1]
+    for k, v in HOSTILE.items():
+        if e in v:
+            return k
+    return "word"
+
+
+def param_lists():
+    out = []
+    for k in ("hyphen", "symbol-bmp", "symbol-nonbmp", "word"):
+        for e in HOSTILE[k]:
+            for dims in (0, 1):
+                h = "[" * dims + e
+                for n in (1, 2, 3):
+                    for pos in range(n):
+                        for fill in itertools.product(FILLERS, repeat=n - 1):
+                            f = list(fill)
+                            out.append((h, tuple(f[:pos] + [h] + f[pos:])))
+    return out
+
+
+def _nregs(t):
+    return 2 if t in ("J", "D") else 1
+
+
+def judge_params(cases):
+    """cases: list of (hostile type, parameter tuple).  -> (evaluations, [(key, case, message)]).  Shared with replay."""
+    from gen import dalvik as D, dexgen as G
+    from androguard.core import dex
+    from androguard.core.analysis.analysis import Analysis
+    from androguard.decompiler.decompile import DvClass, DvMethod
+    from androguard.decompiler import util
+    out = []
+    n_eval = 0
+
+    tokeniser_failed = set()
+
+    def bad(api, case, msg):
+        # one defect of the tokeniser = its params:get_params_type:* keys only; what follows from it downstream
+        # (prototype, tokens, AST, invoke arguments of the same list) is not keyed again
+        if api == "get_params_type":
+            tokeniser_failed.add(case)
+        elif case in tokeniser_failed:
+            return
+        out.append(("params:%s:%s" % (api, hostile_class(case[0])), case, "parameter list %r, %s" % (list(case[1]), msg)))
+
+    def want_names(params):
+        return [tuple(ref_element(split_desc(t)[1])) for t in params]
+
+    def types_ok(texts, params):
+        if len(texts) != len(params):
+            return "%d parameter(s) printed for %d: %r" % (len(texts), len(params), texts)
+        for g, t in zip(texts, params):
+            b = judge_text(g, t, None, ref_element(split_desc(t)[1]))
+            if b:
+                return "parameter %r printed as %r: %s" % (t, g, b[1])
+        return None
+    # --- the tokeniser itself
+    for case in cases:
+        n_eval += 1
+        desc = "(" + " ".join(case[1]) + ")V"
+        try:
+            got = util.get_params_type(desc)
+        except Exception as e:      # noqa
+            got = "raised %s: %s" % (type(e).__name__, e)
+        if got != list(case[1]):
+            bad("get_params_type", case, "util.get_params_type(%s) = %s" % (ascii(desc), ascii(got)))
+    # --- through a generated DEX
+    st = G.ACC_PUBLIC | G.ACC_STATIC
+    ms = []
+    for i, (h, params) in enumerate(cases):
+        regs = sum(_nregs(t) for t in params)
+
+        def body(ix, params=params, regs=regs):
+            return D.enc("invoke-static/range", ix.method("LK;", "m", "V", params), 0, regs) + D.enc("return-void")
+        ms.append(G.Method("q%d" % i, "V", params, st, G.Code(regs, regs, regs, body)))
+    try:
+        vm = dex.DEX(G.build(G.Dex([G.Class("Lp/Q;", dmethods=ms)])))
+        dx = Analysis(vm)
+        dc = DvClass(vm.get_classes()[0], dx)
+        dc.process()
+        src = dc.get_source()
+        mext = {m.name: m.get_source_ext() for m in dc.methods if isinstance(m, DvMethod)}
+        da = DvClass(vm.get_classes()[0], dx)
+        da.process(doAST=True)
+        am = {m["triple"][1]: m for m in da.get_ast()["methods"]}
+    except Exception as e:      # noqa
+        out.append(("params:raises", cases[0], "decompiling a class whose methods take %r ... raised %s: %s"
+                    % (list(cases[0][1]), type(e).__name__, e)))
+        return n_eval, out
+    for i, case in enumerate(cases):
+        params = case[1]
+        n_eval += 4
+        m = re.search(r"^    public static void q%d\((.*)\)$" % i, src, re.M)
+        if not m:       # the method was dropped from the source (its decompilation failed): nothing is rendered
+            bad("prototype", case, "get_source() has no method q%d at all (the decompiler gave the method up)" % i)
+            continue
+        decl = m.group(1).split(", ") if m.group(1) else []
+        texts = [d.rsplit(" ", 1)[0] for d in decl]
+        names = [d.rsplit(" ", 1)[-1] for d in decl]
+        b = types_ok(texts, params)
+        if b:
+            bad("prototype", case, "get_source() prototype '(%s)': %s" % (m.group(1), b))
+        et = [t[1] for t in mext.get("q%d" % i, ()) if t[0] == "ARG_TYPE"]
+        b = types_ok(et, params)
+        if b:
+            bad("ext-arg-type", case, "get_source_ext() ARG_TYPE tokens: %s" % b)
+        ap = am.get("q%d" % i, {}).get("params", [])
+        if len(ap) != len(params) or not all(_typename_ok(x[0], t) for x, t in zip(ap, params)):
+            bad("ast-params", case, "get_ast() params are %r" % ([x[0] for x in ap],))
+        # the invoke passes every parameter on, in order: K.m(p0, p2, ...) with the names of the prototype
+        regs, exp = 0, []
+        for t in params:
+            exp.append("p%d" % regs)
+            regs += _nregs(t)
+        body = src[m.end():]
+        c = re.search(r"^\s+K\.m\((.*)\);$", body[:body.find("\n    }")], re.M)
+        args = c.group(1).split(", ") if c and c.group(1) else []
+        if not c or args != exp or (not b and names != exp):
+            bad("invoke-arguments", case, "the call that passes the parameters on is %r with prototype names %r, expected "
+                "arguments %r" % (c.group(0).strip() if c else None, names, exp))
+    return n_eval, out
+
+
+def run_params_shard(ctx, shard):
+    acc = Acc()
+    cases = param_lists()[shard[1]::N_PAR]
+    try:
+        n, bad = judge_params(cases)
+    except SourceLayout as e:
+        acc.harness_error("parameter lists: %s" % e)
+        return acc
+    acc.n += n
+    acc.nt_disjoint += n
+    acc.count("param_lists", len(cases))
+    for h, params in cases:
+        acc.count("param_lists:" + hostile_class(h))
+        acc.outcomes.add(hash(params))
+    for key, case, msg in bad:
+        acc.violation(key, {"fn": "params", "hostile": case[0], "params": list(case[1])}, msg)
+    if shard[1] == 3:
+        acc.sample({"parameter list": list(cases[40][1]), "family": "params"})
+    return acc
+
+
 # ---------------------------------------------------------------------------------- enumeration
 def elements(ctx):
     """Simplest first: primitives, then classes by package depth, then by length of the descriptor."""
@@ -493,7 +657,7 @@ def elements(ctx):
 
 
 def shards(ctx):
-    return [("elems", i) for i in range(NSHARDS)] + [("src", i) for i in range(N_SRC)]
+    return [("elems", i) for i in range(NSHARDS)] + [("src", i) for i in range(N_SRC)] + [("params", i) for i in range(N_PAR)]
 
 
 def _fns():
@@ -530,6 +694,8 @@ def run_source_shard(ctx, shard):
 def run_shard(ctx, shard):
     if shard[0] == "src":
         return run_source_shard(ctx, shard)
+    if shard[0] == "params":
+        return run_params_shard(ctx, shard)
     acc = Acc()
     fns = _fns()
     _, ad = _bounds(ctx)
@@ -565,6 +731,12 @@ def run_shard(ctx, shard):
 
 
 def replay(ctx, w):
+    if w["fn"] == "params":
+        try:
+            _, bad = judge_params([(w["hostile"], tuple(w["params"]))])
+        except SourceLayout as e:
+            return "HARNESS: %s" % e
+        return "; ".join(m for _, _, m in bad) if bad else None
     if w["fn"] == "source":
         try:
             _, bad, _ = judge_source(w["types"])
@@ -628,6 +800,9 @@ def finalize(ctx, acc):
         acc.note("could not inspect writer bindings: %s" % e)
     acc.note("size argument: only bracket structure judged (count = dimensions, pair empty or str(size), at most one "
              "filled); HEAD prints the size in the LAST pair, e.g. get_type('[[I', 7) = 'int[][7]', not judged")
+    for k in HOSTILE:
+        if not acc.extra.get("param_lists:" + k):
+            acc.harness_error("no parameter list with a %s class name was enumerated" % k)
     for where in ("ext:field", "ext:param", "ext:return", "ext:local", "ext:cast", "ext:new-array", "ext:class-name",
                   "ext:extends", "ext:implements", "ext:constructor", "ast:field", "ast:param", "ast:return", "ast:local",
                   "ast:cast", "ast:new-array", "ast:class-name", "ast:extends", "ast:implements",
